@@ -216,6 +216,35 @@ pub fn run(args: &[String]) -> Vec<String> {
             }
         }
     }
+    // multi-byte samples appended to a file whose length is not a whole number of samples: the old
+    // bytes stay exactly as they are (same request to the byte-level model as the u8 sink)
+    for variant in 0..6usize {
+        let old: Vec<u8> = (0..(variant % 4 + 4 * (variant / 4) + 1)).map(|_| rng.below(256) as u8).collect();
+        let nnew = rng.range(0, 3);
+        let vals: Vec<u32> = (0..nnew).map(|_| rng.next() as u32).collect();
+        let newdata: Vec<u8> = vals.iter().flat_map(|v| v.to_le_bytes()).collect();
+        let path = dir.path().join(format!("a32_{variant}"));
+        std::fs::write(&path, &old).unwrap();
+        rustradio::verif::set_stream_size(4096);
+        let (w, r) = new_stream::<u32>();
+        let res: Result<(), String> = match FileSink::new(r, &path, Mode::Append) {
+            Err(e) => Err(e.to_string()),
+            Ok(mut b) => {
+                if !vals.is_empty() {
+                    let mut wb = w.write_buf().unwrap();
+                    wb.fill_from_slice(&vals);
+                    wb.produce(vals.len(), &[]);
+                }
+                b.work().map(|_| ()).map_err(|e| e.to_string())
+            }
+        };
+        let obs = match res {
+            Err(_) => "err".to_string(),
+            Ok(()) => format!("ok {}", show(&std::fs::read(&path).unwrap_or_default())).trim().to_string(),
+        };
+        let req = format!("fsink stream append file {} ; {}", show(&old), show(&newdata));
+        out.push(format!("{}\t{obs}", req.split_whitespace().collect::<Vec<_>>().join(" ")));
+    }
     // a backlog much larger than any internal chunk: one work() call, default (4 MB) stream
     for (i, n) in [70_000usize, 300_000, 1_000_000].iter().enumerate() {
         rustradio::verif::set_stream_size(0);
